@@ -13,6 +13,7 @@ VERIF = HERE.parent
 def main():
     props = [json.loads(l) for l in (VERIF / "properties.jsonl").read_text().splitlines() if l.strip()]
     checks, na = [], []
+    ready = set((HERE / "READY").read_text().split())
     for p in props:
         pid = p["id"]
         f = HERE / "checks" / f"{pid.lower()}.py"
@@ -34,6 +35,8 @@ def main():
                             end = i + 1
                             break
                 meta = eval(src[start + 7:end], {})
+        if meta is not None and pid not in ready and not meta.get("not_applicable"):
+            meta = None
         if meta is None or meta.get("not_applicable"):
             na.append({"property_id": pid, "reason": (meta or {}).get("not_applicable", "check not built yet (work in progress)")})
             continue
